@@ -85,6 +85,25 @@ class Dual:
             r = r * self
         return r
 
+    # branches in the executed code follow the primal value (ties: the sign of the derivative part), as in any forward-mode AD
+    def _key(self):
+        return (self.a, self.b)
+
+    def __abs__(self):
+        return -self if (self.a < 0 or (self.a == 0 and self.b < 0)) else self
+
+    def __lt__(self, o):
+        return self._key() < Dual._c(o)._key()
+
+    def __le__(self, o):
+        return self._key() <= Dual._c(o)._key()
+
+    def __gt__(self, o):
+        return self._key() > Dual._c(o)._key()
+
+    def __ge__(self, o):
+        return self._key() >= Dual._c(o)._key()
+
 
 def _obj(lst):
     a = np.empty(len(lst), dtype=object)
@@ -178,14 +197,17 @@ def _quat(rng):
     if not np.any(P):
         P[0] = 1.0
     P = P / np.linalg.norm(P)
-    mode = int(rng.integers(4))
+    mode = int(rng.integers(5))
     if mode == 0:
         length = 1.0
     elif mode == 1:
         length = loguniform(rng, 1e-3, 1e3)
+    elif mode == 4:
+        # a hair off unit length (what a few integration steps without re-normalisation produce)
+        length = 1.0 + (1 if rng.random() < 0.5 else -1) * loguniform(rng, 1e-15, 1e-4)
     else:
         length = loguniform(rng, 1e-100, 1e100)
-    return P * length, ["half", "ident", "dynrange", "axis", "nearhalf", "gen", "gen", "gen"][c], ["unit", "moderate", "extreme", "extreme"][mode]
+    return P * length, ["half", "ident", "dynrange", "axis", "nearhalf", "gen", "gen", "gen"][c], ["unit", "moderate", "extreme", "extreme", "nearunit"][mode]
 
 
 def run_float(ctx, n):
@@ -241,8 +263,15 @@ def run_float(ctx, n):
             ctx.violation("T_SO3_quat/T_SO3_inv_quat", "normalize=False: tangent map times inverse is not the identity on a unit quaternion", {**det, "err": e})
         # derivative by complex step (rational kernel, no branches)
         Pm = Pn * loguniform(rng, 1e-3, 1e3)
-        for nz in (True, False):
-            Pd = Pm if nz else Pn
+        # the stated derivative is checked with and without normalisation at the SAME points (the unit quaternion Pn, the
+        # sampled P itself - which may be a hair off unit length - and a moderately scaled one), in a seeded order, so that a
+        # result that depends on what was evaluated before at that point is seen as well
+        combos = [(Pm, True), (Pn, False), (Pn, True)]
+        if 1e-3 <= np.linalg.norm(P) <= 1e3:
+            combos.append((P, True))
+        order = rng.permutation(len(combos))
+        for ci in order:
+            Pd, nz = combos[int(ci)]
             J = R.Exp_SO3_quat_P(Pd, normalize=nz)
             D = np.zeros((3, 3, 4))
             h = 1e-30 * np.linalg.norm(Pd)
@@ -254,6 +283,15 @@ def run_float(ctx, n):
             if e > 1e-10:
                 ctx.violation("Exp_SO3_quat_P", "stated partial derivative differs from complex-step derivative of Exp_SO3_quat",
                               {"P": Pd, "normalize": nz, "scaled_err": e})
+        # purity: the kernel functions are pure; evaluating them again (after the other variant was evaluated at the same
+        # point) must give the same values
+        ctx.mon("float.purity")
+        for name in ("Exp_SO3_quat", "Exp_SO3_quat_P", "T_SO3_quat", "T_SO3_inv_quat", "T_SO3_quat_P", "T_SO3_inv_quat_P"):
+            f = getattr(R, name)
+            a1 = np.array(f(Pn, normalize=True)); b1 = np.array(f(Pn, normalize=False)); a2 = np.array(f(Pn, normalize=True)); b2 = np.array(f(Pn, normalize=False))
+            if not (np.array_equal(a1, a2) and np.array_equal(b1, b2)):
+                ctx.violation(name, "repeated evaluation at the same quaternion returns different values (depends on the call history)",
+                              {"P": Pn, "err_normalize_true": np.abs(a1 - a2).max(), "err_normalize_false": np.abs(b1 - b2).max()})
         # spin: P_dot = T_inv(P) w ; body spin of Exp(P(t)) must be w
         w = rng.normal(size=3) * loguniform(rng, 1e-6, 1e6)
         Pdot = R.T_SO3_inv_quat(Pm) @ w
@@ -291,21 +329,39 @@ def run_exact(ctx, n):
         for _ in range(n):
             bits = [4, 20, 40][int(rng.integers(3))]
             P = _obj([_frac(rng, bits) for _ in range(4)])
-            c = int(rng.integers(6))
+            c = int(rng.integers(7))
             if c == 0:
                 P[0] = Fraction(0)
             elif c == 1:
                 P[1] = P[2] = Fraction(0)
+            elif c == 6:
+                # exactly unit rational quaternion (stereographic projection of a rational point): P.P == 1 holds with ==
+                t = [_frac(rng, min(bits, 20)) for _ in range(3)]
+                tt = sum(x * x for x in t)
+                P = _obj([(1 - tt) / (1 + tt)] + [2 * x / (1 + tt) for x in t])
             if all(x == 0 for x in P):
                 P[0] = Fraction(1)
             if first is None:
                 first = [str(x) for x in P]
-            ctx.cls(f"exact:bits{bits}:{['p0=0','axis','gen','gen','gen','gen'][c]}")
+            ctx.cls(f"exact:bits{bits}:{['p0=0','axis','gen','gen','gen','gen','unit'][c]}")
             det = {"P": [str(x) for x in P]}
+            try:
+                _exact_sample(ctx, R, rng, P, bits, det)
+            except (TypeError, AttributeError, ValueError, ZeroDivisionError) as e:
+                # the real code could not be executed on Fraction / dual-number objects (e.g. a float-only numpy routine was
+                # introduced): exact mode says nothing about this sample; float mode decides
+                ctx.count("exact_mode_unavailable:exception")
+                ctx.count(f"exact_mode_exception:{type(e).__name__}")
+    return first
+
+
+def _exact_sample(ctx, R, rng, P, bits, det):
+    if True:
+        if True:
             A = R.Exp_SO3_quat(P.copy(), normalize=True)
             if not _all_exact(A):
                 ctx.count("exact_mode_unavailable:Exp_SO3_quat")
-                continue
+                return
             ctx.mon("exact.orthonormal")
             if not _eq(_matmul(A.T, A), _eye(3)) or _det3(A) != 1:
                 ctx.violation("Exp_SO3_quat", "exact arithmetic: rotation matrix not orthonormal with determinant +1", det)
@@ -346,7 +402,7 @@ def run_exact(ctx, n):
                         Adot[i, j], Aval[i, j] = x.b, x.a
             if not ok or not _eq(Aval, A):
                 ctx.count("exact_mode_unavailable:dual")
-                continue
+                return
             W = _matmul(A.T, Adot)
             ctx.mon("exact.spin")
             skew_ok = all(W[i, j] == -W[j, i] for i in range(3) for j in range(3))
@@ -365,7 +421,6 @@ def run_exact(ctx, n):
                     ctx.violation("Exp_SO3_quat_P", "exact arithmetic: stated partial derivative differs from the dual-number derivative of Exp_SO3_quat", det)
             else:
                 ctx.count("exact_mode_unavailable:Exp_SO3_quat_P")
-    return first
 
 
 # ------------------------------------------------------------------ algebra helpers
